@@ -87,7 +87,25 @@ func init() {
 		classes := map[string]int{}
 		targets := append([]CorpusCert{}, corpus.Certs...)
 		targets = append(targets, ownKeyCerts()...)
+		for _, zc := range certZoo() {
+			switch zc.Class {
+			case "validity", "sigalg", "tld", "extension", "related-names":
+				targets = append(targets, zc.CorpusCert)
+			case "ku-eku", "subject", "name":
+				if len(zc.DER)%5 == 0 {
+					targets = append(targets, zc.CorpusCert)
+				}
+			}
+		}
 		classes["generated: issuer differs from subject, signed with the certified key"] = len(targets) - len(corpus.Certs)
+		// the complete runs first; then one placeholder signature at a time over the whole population, back to back: a
+		// pre-issuance pipeline that lints many to-be-signed certificates carrying the same dummy signature
+		type tgt struct {
+			cc          CorpusCert
+			s, e        int
+			base, base2 map[string]resKey
+		}
+		var tgts []tgt
 		for _, cc := range targets {
 			if bytes.Equal(cc.Cert.RawIssuer, cc.Cert.RawSubject) {
 				classes["self-issued (skipped)"]++
@@ -99,9 +117,11 @@ func init() {
 				continue
 			}
 			certsTried++
-			base := resultsOf(zlint.LintCertificate(cc.Cert))
-			base2 := resultsOf(zlint.LintCertificate(cc.Cert))
-			for v := 0; v < variants; v++ {
+			tgts = append(tgts, tgt{cc, s, e, resultsOf(zlint.LintCertificate(cc.Cert)), resultsOf(zlint.LintCertificate(cc.Cert))})
+		}
+		for v := 0; v < variants; v++ {
+			for _, t := range tgts {
+				cc, s, e, base, base2 := t.cc, t.s, t.e, t.base, t.base2
 				mut := append([]byte{}, cc.DER...)
 				kind := ""
 				switch v {
@@ -144,7 +164,7 @@ func init() {
 					}
 					compared++
 					if got[n] != r {
-						out.Violate("C09|"+n, fmt.Sprintf("lint %s changes from %v to %v when the signature of %s is replaced (%s)", n, r, got[n], cc.File, kind),
+						out.Violate("C09|"+n, fmt.Sprintf("lint %s changes from %v to %v when the signature of %s is replaced (%s, linted right after other certificates carrying the same placeholder)", n, r, got[n], cc.File, kind),
 							map[string]interface{}{"file": cc.File, "variant": kind, "der": hexs(mut)}, r, got[n])
 					}
 				}
